@@ -3,6 +3,14 @@
 REFLECT = "Go reflect / runtime semantics as specified in the model (DESIGN.md 3.4)"
 
 PROPS = {
+    "C18": {
+        "gens": ["Cli"],
+        "lean": "Anko.Props.C18",
+        "build_cli": True,
+        "streams": [{"name": "cli", "n_quick": 250, "n_thorough": 3000}],
+        "trusted": ["OS process boundary (exit status, pipes) observed differentially only"],
+        "assumptions": ["the decision structure of runNonInteractive has the canonical shape the extractor recognises (else: broken tie)"],
+    },
     "C06": {
         "gens": [],
         "lean": "Anko.Props.C06",
@@ -34,6 +42,16 @@ PROPS = {
 
 # Texts for MANIFEST.json (level_claimed.text, level_note, technique, design_ref)
 MANIFEST_TEXT = {
+    "C18": {
+        "text": "Machine-checked proofs (Lean 4) over the decision table of the anko command whose constants and structure are REGENERATED "
+                "from anko.go on every run: exit 0 iff source obtained and vm.Execute returned no error, 4 on parse/run error, 2 on an "
+                "unreadable file, exactly one diagnostic line iff failure, prepared environment (args, core builtins, bundled packages) is "
+                "what vm.Execute receives. Correspondence: generated scripts through the binary built from the working tree (file + "
+                "trailing args, -e, unreadable path) vs the table; oracle: vm.Execute in an equally prepared environment (verdict and stdout).",
+        "note": "Trusted: Lean kernel; the anko.go extractor (closed shape); OS process boundary and stdout buffering are observed, not modelled.",
+        "technique": "Lean 4 proof over a regenerated decision table + differential run of the built binary",
+        "design_ref": "DESIGN.md section 6 (C18)",
+    },
     "C06": {
         "text": "Machine-checked proofs (Lean 4) over the model of vm.equal + reflect.DeepEqual on the whole value universe (nil, bool, int64, "
                 "float64, strings, nested slices and maps, functions): == is symmetric for every pair (induction on DeepEqual fuel, under the "
